@@ -887,7 +887,59 @@ func e2eC06(repo, dir string, vals map[string]string) ([]string, error) {
 	return bad, nil
 }
 
+// e2eC12: generated helper methods take the converter-level settings, never those of the method that needs them.
+func e2eC12(repo, dir string, vals map[string]string) ([]string, error) {
+	e, err := newE2E(repo, dir)
+	if err != nil {
+		return nil, err
+	}
+	var bad []string
+	types := "type Outer struct{ In Inner }\ntype OuterT struct{ In InnerT }\ntype Inner struct{ A int }\ntype InnerT struct {\n\tA int\n\tMissing int\n}\n"
+	e.write("meth/in.go", "package meth\n\n// goverter:converter\ntype C interface {\n\t// goverter:ignoreMissing\n\tConvert(source Outer) OuterT\n}\n"+types)
+	if code, _, se := e.run("gen", "./meth"); code != 1 {
+		bad = append(bad, fmt.Sprintf("method-level ignoreMissing reached the generated helper of a nested pair (exit %d): %s", code, firstLine(se)))
+	}
+	e.write("conv/in.go", "package conv\n\n// goverter:converter\n// goverter:ignoreMissing\ntype C interface {\n\tConvert(source Outer) OuterT\n}\n"+types)
+	if code, _, se := e.run("gen", "./conv"); code != 0 {
+		bad = append(bad, fmt.Sprintf("converter-level ignoreMissing does not reach the generated helper of a nested pair (exit %d): %s", code, firstLine(se)))
+	}
+	// the same for every other inheritable setting: written on the method it must not change the helper of the nested pair
+	for _, c := range []struct{ setting, inner, innerT, extra, wantFail, leakText string }{
+		{"matchIgnoreCase", "struct{ Name string }", "struct{ NAME string }", "", "yes", ""},
+		{"useZeroValueOnPointerInconsistency", "struct{ P *int }", "struct{ P int }", "", "yes", ""},
+		{"ignoreUnexported", "struct{ A int }", "struct {\n\tA int\n\thidden int\n}", "", "yes", ""},
+		{"skipCopySameType", "struct{ L []int }", "struct{ L []int }", "", "", "L = source.L"},
+		{"wrapErrors", "struct{ A int }", "struct{ A string }", "// goverter:extend Itoa\n", "", "error setting field A"},
+		{"wrapErrorsUsing e2e/leak_wrapErrorsUsing/perr", "struct{ A int }", "struct{ A string }", "// goverter:extend Itoa\n", "", "perr.Field(\"A\")"},
+	} {
+		name := "leak_" + strings.Fields(c.setting)[0]
+		src := "package " + name + "\n\n// goverter:converter\n" + c.extra + "type C interface {\n\t// goverter:" + c.setting + "\n\tConvert(source Outer) (OuterT, error)\n}\ntype Outer struct{ In Inner }\ntype OuterT struct{ In InnerT }\ntype Inner " + c.inner + "\ntype InnerT " + c.innerT + "\nfunc Itoa(i int) (string, error) { return \"\", nil }\n"
+		e.write(name+"/in.go", src)
+		if strings.HasPrefix(c.setting, "wrapErrorsUsing") {
+			e.write(name+"/perr/perr.go", "package perr\n\nfunc Wrap(err error, path ...any) error { return err }\nfunc Field(string) any { return nil }\nfunc Index(int) any { return nil }\nfunc Key(any) any { return nil }\n")
+		}
+		code, _, se := e.run("gen", "./"+name)
+		b, _ := os.ReadFile(filepath.Join(e.dir, name, "generated/generated.go"))
+		switch {
+		case c.wantFail != "" && code != 1:
+			bad = append(bad, fmt.Sprintf("method-level %s reached the generated helper of a nested pair (exit %d)", c.setting, code))
+		case c.wantFail == "" && (code != 0 || strings.Contains(string(b), c.leakText)):
+			bad = append(bad, fmt.Sprintf("method-level %s reached the generated helper of a nested pair (exit %d, helper shows %q): %s", c.setting, code, c.leakText, firstLine(se)))
+		}
+	}
+	// a helper shared by two methods does not depend on which of them is built first
+	two := "type L struct{ Items []int }\ntype W1 struct{ V L }\ntype W1T struct{ V L }\ntype W2 struct{ V L }\ntype W2T struct{ V L }\n"
+	e.write("share/in.go", "package share\n\n// goverter:converter\ntype C interface {\n\t// goverter:skipCopySameType\n\tA(source W1) W1T\n\tB(source W2) W2T\n}\n"+two)
+	code, _, se := e.run("gen", "./share")
+	b, _ := os.ReadFile(filepath.Join(e.dir, "share/generated/generated.go"))
+	if code != 0 || !strings.Contains(string(b), "make([]int") {
+		bad = append(bad, "the helper shared by a skipCopySameType method and a plain method no longer copies the slice: "+firstLine(se))
+	}
+	return bad, nil
+}
+
 var e2eScenarios = map[string]func(repo, dir string, vals map[string]string) ([]string, error){
+	"c12": e2eC12,
 	"c06": e2eC06,
 	"c19": e2eC19,
 	"c09": e2eC09,
